@@ -1,4 +1,6 @@
 """C03 — schema invariant: a typed symbolic value always satisfies its declared schema."""
+import contextlib
+
 import pyglove as pg
 from hypothesis import strategies as st
 
@@ -20,7 +22,7 @@ ASSUMPTIONS = [
     'a batch (extend, update, slice assignment, multi-path rebind) may have applied its earlier valid elements',
     'the independent predicate is conservative: it answers "unknown" for conversions it does not model',
 ]
-BUDGET = {'quick': 4000, 'thorough': 100000}
+BUDGET = {'quick': 6000, 'thorough': 120000}
 
 LIST_OPS = ['append', 'insert', 'extend', 'pop', 'remove', 'delitem', 'delslice', 'setitem',
             'setslice', 'clear', 'iadd', 'imul', 'sort', 'reverse', 'rebind_l']
@@ -50,6 +52,7 @@ def strategy(tier):
       'spec': specs.container_spec_strategy(max_leaves=5),
       'init': specs.CHOICES,
       'partial': st.sampled_from([False, False, True]),
+      'scope_init': st.sampled_from([False, False, True]),
       'ops': st.lists(op, min_size=1, max_size=n),
   })
 
@@ -141,7 +144,10 @@ def execute(case):
     raise core.InvalidCase(desc)
   partial = bool(case.get('partial'))
   try:
-    root = _build_root(desc, specs.Choices(case.get('init', [0])), partial)
+    # Optionally the (complete, non-partial) root is built inside an allow_partial(True) scope:
+    # the scope must not leak into the object once it is left.
+    with (pg.allow_partial(True) if case.get('scope_init') and not partial else contextlib.nullcontext()):
+      root = _build_root(desc, specs.Choices(case.get('init', [0])), partial)
   except core.InvalidCase:
     raise
   except specs.SpecBuildError as e:
@@ -153,6 +159,7 @@ def execute(case):
                        op='construct', rule='sampled-valid-rejected', exc=type(e).__name__)
   res.label('root:' + desc['t'], 'partial' if partial else 'complete')
   lenient = partial
+  scope_used = bool(case.get('scope_init')) and not partial
   bad = _state_check(root, desc, lenient)
   if bad:
     return res.violate(bad[1], op='construct', rule=bad[0])
@@ -188,6 +195,7 @@ def execute(case):
     ap = op.get('ap')
     if ap is True:
       lenient = True
+      scope_used = True
 
     def value_for(ld):
       """(value, verdict) for a location of descriptor ld."""
@@ -200,6 +208,24 @@ def execute(case):
       v = specs.sample(ld, ch)
       return v, specs.accepts(ld, v, partial=lenient)
 
+    _plain_value_for = value_for
+
+    def value_for(ld):   # pylint: disable=function-redefined
+      """Sometimes hands the value over as a container that already carries its own, wider, spec."""
+      v, verdict = _plain_value_for(ld)
+      if (ld is not None and ld['t'] in ('list', 'dict') and ch.pick(2) == 0
+          and not specs.any_frozen(ld)):   # is_compatible ignoring frozen is recorded under C04 (C04-K1)
+        try:
+          loose = specs.loosen(ld, ch.pick(3))
+          plain = specs.sample({k: x for k, x in loose.items() if k != 'noneable'}, ch)
+          wide = specs.to_spec(loose)
+          typed = pg.List(plain, value_spec=wide) if isinstance(plain, list) else pg.Dict(plain, value_spec=wide)
+          v, verdict = typed, specs.accepts(ld, plain, partial=lenient)
+          res.label('pretyped-value')
+        except (specs.SpecBuildError,) + REJECT:
+          pass
+      return v, verdict
+
     _orig_value_for = value_for
     sample_err = []
 
@@ -211,176 +237,185 @@ def execute(case):
         return None, None
 
     wpaths = [n.sym_path.keys]   # locations this op may write
-    single = None     # verdict of a single-location write
-    plain_replace = False
-    before = _json(root)
-    call = None
-    if name in LIST_OPS:
-      ed = nd['elem']
-      v, verdict = value_for(ed)
-      L = len(n)
-      if name == 'append':
-        single = verdict
-        call = lambda: n.append(v)
-      elif name == 'insert':
-        single = verdict
-        call = lambda: n.insert(i, v)
-      elif name == 'extend':
-        vs = [v] + [specs.sample(ed, ch) for _ in range(m % 3)]
-        call = lambda: n.extend(vs)
-      elif name == 'pop':
-        call = (lambda: n.pop()) if m == 0 else (lambda: n.pop(i))
-      elif name == 'remove':
-        call = lambda: n.remove(n[i % L]) if L else n.remove(v)
-      elif name == 'delitem':
-        call = lambda: n.__delitem__(i)
-      elif name == 'delslice':
-        call = lambda: n.__delitem__(slice(i, j, s))
-      elif name == 'setitem':
-        single = verdict
-        plain_replace = -L <= i < L
-        call = lambda: n.__setitem__(i, v)
-      elif name == 'setslice':
-        vs = [v] + [specs.sample(ed, ch) for _ in range(m % 3)]
-        call = lambda: n.__setitem__(slice(i, j, s), vs)
-      elif name == 'clear':
-        call = n.clear
-      elif name == 'iadd':
-        vs = [v] + [specs.sample(ed, ch) for _ in range(m % 2)]
-        call = lambda: n.__iadd__(vs)
-      elif name == 'imul':
-        call = lambda: n.__imul__(m % 3)
-      elif name == 'sort':
-        call = lambda: n.sort(key=repr)
-      elif name == 'reverse':
-        call = n.reverse
-      elif name == 'rebind_l':
-        idx = abs(i)
-        if m % 3 == 0:
+    # Values are built and the call is made inside the generated allow_partial scope.
+    with (pg.allow_partial(ap) if ap is not None else contextlib.nullcontext()):
+      single = None     # verdict of a single-location write
+      plain_replace = False
+      before = _json(root)
+      call = None
+      if name in LIST_OPS:
+        ed = nd['elem']
+        v, verdict = value_for(ed)
+        L = len(n)
+        if name == 'append':
           single = verdict
-          plain_replace = idx < L
-          call = lambda: n.rebind({idx: v})
-        elif m % 3 == 1:
+          call = lambda: n.append(v)
+        elif name == 'insert':
           single = verdict
-          call = lambda: n.rebind({idx: pg.Insertion(v)})
-        else:
-          call = lambda: n.rebind({idx: pg.MISSING_VALUE}, raise_on_no_change=False)
-    elif name in DICT_OPS:
-      declared = [kk for kk, _ in nd.get('fields', [])] if nd['t'] == 'dict' else []
-      pool = declared + ['u0', 'u1', 'zzz']
-      if nd['t'] == 'dict0':
-        pool = ['k', 'm', 'zzz']
-      key = pool[k % len(pool)]
-      ld = specs.spec_at(nd, [key]) if nd['t'] == 'dict' else {'t': 'any'}
-      unknown_key = ld is None
-      v, verdict = value_for(ld)
-      if unknown_key:
-        verdict = False        # an undeclared key must be refused
-      if name == 'dsetitem':
-        single = verdict
-        plain_replace = not unknown_key
-        call = lambda: n.__setitem__(key, v)
-      elif name == 'dsetattr':
-        single = verdict
-        plain_replace = not unknown_key
-        call = lambda: setattr(n, key, v)
-      elif name == 'ddelitem':
-        call = lambda: n.__delitem__(key)
-      elif name == 'dpop':
-        call = lambda: n.pop(key, None)
-      elif name == 'popitem':
-        call = n.popitem
-      elif name == 'update':
-        single = verdict
-        call = lambda: n.update({key: v})
-      elif name == 'setdefault':
-        if key not in n or n.sym_getattr(key) == pg.MISSING_VALUE:
+          call = lambda: n.insert(i, v)
+        elif name == 'extend':
+          vs = [v] + [specs.sample(ed, ch) for _ in range(m % 3)]
+          call = lambda: n.extend(vs)
+        elif name == 'pop':
+          call = (lambda: n.pop()) if m == 0 else (lambda: n.pop(i))
+        elif name == 'remove':
+          call = lambda: n.remove(n[i % L]) if L else n.remove(v)
+        elif name == 'delitem':
+          call = lambda: n.__delitem__(i)
+        elif name == 'delslice':
+          call = lambda: n.__delitem__(slice(i, j, s))
+        elif name == 'setitem':
           single = verdict
-        call = lambda: n.setdefault(key, v)
-      elif name == 'dclear':
-        call = n.clear
-      elif name == 'ior':
-        single = verdict
-        call = lambda: n.__ior__({key: v})
-      elif name == 'rebind_d':
-        single = verdict
-        plain_replace = not unknown_key
-        call = lambda: n.rebind({key: v})
-      elif name == 'setmissing':
-        call = lambda: n.__setitem__(key, pg.MISSING_VALUE)
-    elif name in OBJ_OPS:
-      names = [kk for kk, _ in nd['fields']] + ['zzz']
-      key = names[k % len(names)]
-      ld = specs.spec_at(nd, [key])
-      unknown_key = ld is None
-      v, verdict = value_for(ld)
-      if unknown_key:
-        verdict = False
-      if unknown_key and name == 'osetattr':
-        continue   # sets a plain Python attribute, not a symbolic field
-      if name == 'rebind_o':
-        single = verdict
-        plain_replace = not unknown_key
-        call = lambda: n.rebind({key: v})
-      elif name == 'osetattr':
-        single = verdict
-        call = lambda: setattr(n, key, v)
-      else:
-        call = lambda: n.rebind({key: pg.MISSING_VALUE}, raise_on_no_change=False)
-    else:   # rebind_path from the root
-      locs = []
-      for x in nodes:
-        for kk, _ in x.sym_items():
-          p = x.sym_path.keys + [kk]
-          ld = specs.spec_at(desc, p)
-          if ld is not None:
-            locs.append((p, ld))
-      if not locs:
-        continue
-      p, ld = locs[i % len(locs)]
-      wpaths.append(p)
-      v, verdict = value_for(ld)
-      if name == 'rebind_path':
-        single = verdict
-        plain_replace = True
-        call = lambda: root.rebind({pg.KeyPath(p): v})
-      else:
-        # a batch over several locations mixing valid writes, deletions and near-misses
-        upd = {pg.KeyPath(p): v}
-        for _ in range(1 + ch.pick(2)):
-          p2, ld2 = locs[ch.pick(len(locs))]
-          wpaths.append(p2)
-          mode = ch.pick(3)
-          if mode == 1:
-            v2 = pg.MISSING_VALUE
-          elif mode == 2:
-            ok2, v2 = specs.near_miss(ld2, ch)
-            if not ok2:
-              v2 = specs.sample(ld2, ch)
+          plain_replace = -L <= i < L
+          call = lambda: n.__setitem__(i, v)
+        elif name == 'setslice':
+          vs = [v] + [specs.sample(ed, ch) for _ in range(m % 3)]
+          call = lambda: n.__setitem__(slice(i, j, s), vs)
+        elif name == 'clear':
+          call = n.clear
+        elif name == 'iadd':
+          vs = [v] + [specs.sample(ed, ch) for _ in range(m % 2)]
+          call = lambda: n.__iadd__(vs)
+        elif name == 'imul':
+          call = lambda: n.__imul__(m % 3)
+        elif name == 'sort':
+          call = lambda: n.sort(key=repr)
+        elif name == 'reverse':
+          call = n.reverse
+        elif name == 'rebind_l':
+          idx = abs(i)
+          if m % 3 == 0:
+            single = verdict
+            plain_replace = idx < L
+            call = lambda: n.rebind({idx: v})
+          elif m % 3 == 1:
+            single = verdict
+            call = lambda: n.rebind({idx: pg.Insertion(v)})
           else:
-            v2 = specs.sample(ld2, ch)
-          upd.setdefault(pg.KeyPath(p2), v2)
-        call = lambda: root.rebind(upd)
-    if sample_err:
-      return res.violate('building a value sampled as valid for %r raised %r' % sample_err[0],
-                         op=name, rule='sampled-valid-rejected', exc=type(sample_err[0][1]).__name__)
-    if call is None:
-      continue
-    exc = None
-    try:
-      with pg.notify_on_change(not op.get('nf')):
-        if ap is None:
-          call()
+            call = lambda: n.rebind({idx: pg.MISSING_VALUE}, raise_on_no_change=False)
+      elif name in DICT_OPS:
+        declared = [kk for kk, _ in nd.get('fields', [])] if nd['t'] == 'dict' else []
+        pool = declared + ['u0', 'u1', 'zzz']
+        if nd['t'] == 'dict0':
+          pool = ['k', 'm', 'zzz']
+        key = pool[k % len(pool)]
+        ld = specs.spec_at(nd, [key]) if nd['t'] == 'dict' else {'t': 'any'}
+        unknown_key = ld is None
+        v, verdict = value_for(ld)
+        if unknown_key:
+          verdict = False        # an undeclared key must be refused
+        if name == 'dsetitem':
+          single = verdict
+          plain_replace = not unknown_key
+          call = lambda: n.__setitem__(key, v)
+        elif name == 'dsetattr':
+          single = verdict
+          plain_replace = not unknown_key
+          call = lambda: setattr(n, key, v)
+        elif name == 'ddelitem':
+          call = lambda: n.__delitem__(key)
+        elif name == 'dpop':
+          call = lambda: n.pop(key, None)
+        elif name == 'popitem':
+          call = n.popitem
+        elif name == 'update':
+          single = verdict
+          call = lambda: n.update({key: v})
+        elif name == 'setdefault':
+          if key not in n or n.sym_getattr(key) == pg.MISSING_VALUE:
+            single = verdict
+          call = lambda: n.setdefault(key, v)
+        elif name == 'dclear':
+          call = n.clear
+        elif name == 'ior':
+          single = verdict
+          call = lambda: n.__ior__({key: v})
+        elif name == 'rebind_d':
+          single = verdict
+          plain_replace = not unknown_key
+          call = lambda: n.rebind({key: v})
+        elif name == 'setmissing':
+          call = lambda: n.__setitem__(key, pg.MISSING_VALUE)
+      elif name in OBJ_OPS:
+        names = [kk for kk, _ in nd['fields']] + ['zzz']
+        key = names[k % len(names)]
+        ld = specs.spec_at(nd, [key])
+        unknown_key = ld is None
+        v, verdict = value_for(ld)
+        if unknown_key:
+          verdict = False
+        if unknown_key and name == 'osetattr':
+          continue   # sets a plain Python attribute, not a symbolic field
+        if name == 'rebind_o':
+          single = verdict
+          plain_replace = not unknown_key
+          call = lambda: n.rebind({key: v})
+        elif name == 'osetattr':
+          single = verdict
+          call = lambda: setattr(n, key, v)
         else:
-          with pg.allow_partial(ap):
+          if (ld is not None and not specs.has_default(ld) and ld['t'] not in ('dict', 'dict0', 'any')
+              and ap is not True
+              and not getattr(n, 'allow_partial', False) and not n.sym_partial):
+            single = False     # a required field of a non-partial object cannot be unset
+            v = pg.MISSING_VALUE
+          call = lambda: n.rebind({key: pg.MISSING_VALUE}, raise_on_no_change=False)
+      else:   # rebind_path from the root
+        locs = []
+        for x in nodes:
+          for kk, _ in x.sym_items():
+            p = x.sym_path.keys + [kk]
+            ld = specs.spec_at(desc, p)
+            if ld is not None:
+              locs.append((p, ld))
+        if not locs:
+          continue
+        p, ld = locs[i % len(locs)]
+        wpaths.append(p)
+        v, verdict = value_for(ld)
+        if name == 'rebind_path':
+          single = verdict
+          plain_replace = True
+          call = lambda: root.rebind({pg.KeyPath(p): v})
+        else:
+          # a batch over several locations mixing valid writes, deletions and near-misses
+          upd = {pg.KeyPath(p): v}
+          for _ in range(1 + ch.pick(2)):
+            p2, ld2 = locs[ch.pick(len(locs))]
+            wpaths.append(p2)
+            mode = ch.pick(3)
+            if mode == 1:
+              v2 = pg.MISSING_VALUE
+            elif mode == 2:
+              ok2, v2 = specs.near_miss(ld2, ch)
+              if not ok2:
+                v2 = specs.sample(ld2, ch)
+            else:
+              v2 = specs.sample(ld2, ch)
+            upd.setdefault(pg.KeyPath(p2), v2)
+          call = lambda: root.rebind(upd)
+      if sample_err:
+        return res.violate('building a value sampled as valid for %r raised %r' % sample_err[0],
+                           op=name, rule='sampled-valid-rejected', exc=type(sample_err[0][1]).__name__)
+      if call is None:
+        continue
+      exc = None
+      try:
+        with pg.notify_on_change(not op.get('nf')):
+          if ap is None:
             call()
-    except RecursionError:
-      raise
-    except Exception as e:   # pylint: disable=broad-except
-      exc = e
+          else:
+            with pg.allow_partial(ap):
+              call()
+      except RecursionError:
+        raise
+      except Exception as e:   # pylint: disable=broad-except
+        exc = e
     res.label('op:' + name, 'raised:' + type(exc).__name__ if exc else 'returned')
     after = _json(root)
-    sigx = {}
+    sigx = {'kind': nd['t']}
+    if scope_used:
+      sigx['partial_scope_used'] = '1'
     # Is the target held (directly or indirectly) by a frozen field?
     if any(specs.is_frozen(specs.spec_at(desc, tkeys[:q]) or {})
            for tkeys in wpaths for q in range(len(tkeys) + 1)):
@@ -395,7 +430,7 @@ def execute(case):
       res.label('invalid-write')
       if exc is None:
         return res.violate('invalid value %s was accepted (state now %s) | %s' % (_r(v), _r(root), what),
-                           op=name, rule='accepted-invalid-write', kind=nd['t'], **sigx)
+                           op=name, rule='accepted-invalid-write', **sigx)
       n_rejected += 1
     if exc is not None and single is not None and before != after:
       return res.violate('write raised %r but the tree changed: %s -> %s | %s' % (exc, before, after, what),
